@@ -129,13 +129,32 @@ def batches(ctx):
             child = [rng.randrange(12) for _ in range(k)]
         mcases.append({"child": child, "parent": parent, "mask": rng.getrandbits(rng.randint(0, n + 1))})
 
+    SENTINEL = 1 << 300     # stands for "the call raised": the model never returns it
+
     def impl_m(c):
-        m = S.mask_from_subseq(c["child"], c["parent"])
+        # history independence: the very list object handed to the functions was used before, in another
+        # order, and re-ordered in place (every third case); answers must depend on its content now
+        parent = list(c["parent"])
+        if c["mask"] % 3 == 0 and len(parent) >= 2:
+            parent.reverse()
+            try:
+                S.mask_from_subseq(list(reversed(c["child"])), parent)
+                S.subseq_from_mask(c["mask"], parent)
+            except Exception:  # noqa: BLE001 - the priming calls are not judged
+                pass
+            parent.reverse()
         try:
-            back = S.subseq_from_mask(c["mask"], c["parent"])
+            m = S.mask_from_subseq(c["child"], parent)
+        except Exception as e:  # noqa: BLE001
+            m = "exc:" + type(e).__name__
+        try:
+            back = S.subseq_from_mask(c["mask"], parent)
         except IndexError:
             back = None
-        return {"mask": m, "from_mask": back, "complete": S.subseq_complete(c["parent"])}
+        return {"mask": m, "from_mask": back, "complete": S.subseq_complete(parent)}
+
+    def mask_lit(r):
+        return cN(r["mask"] if isinstance(r["mask"], int) else SENTINEL)
 
     def is_subseq(ch, pa):
         it = iter(pa)
@@ -145,6 +164,8 @@ def batches(ctx):
         pa, ch = c["parent"], c["child"]
         if len(set(pa)) != len(pa):
             return True, "parent has repeated elements: outside the property's domain"
+        if not isinstance(r["mask"], int) and is_subseq(ch, pa):
+            return False, f"mask_from_subseq raised {r['mask']} on a subsequence of its parent"
         if is_subseq(ch, pa):
             want = sum(1 << pa.index(x) for x in ch)
             if r["mask"] != want:
@@ -165,7 +186,7 @@ def batches(ctx):
         ty_in="list N * list N * N", ty_out="N * option (list N) * N",
         cases=mcases, impl=impl_m,
         enc_in=lambda c: cpair(clist(map(cN, c["child"])), clist(map(cN, c["parent"])), cN(c["mask"])),
-        enc_out=lambda c, r: cpair(cN(r["mask"]), copt(None if r["from_mask"] is None else clist(map(cN, r["from_mask"]))), cN(r["complete"])),
+        enc_out=lambda c, r: cpair(mask_lit(r), copt(None if r["from_mask"] is None else clist(map(cN, r["from_mask"]))), cN(r["complete"])),
         oracle=oracle_m,
         nontrivial=lambda c, r: 0 < len(c["child"]) < len(c["parent"]),
         exhaustive=False, shard=4000,
@@ -177,7 +198,7 @@ def batches(ctx):
 
     def impl_g(c):
         r = impl_m(c)
-        sd = S.subseq_segment_dist(c["mask"], S.mask_from_subseq(c["child"], c["parent"]) | c["mask"], len(c["child"]) % 2 == 0)
+        sd = S.subseq_segment_dist(c["mask"], r["mask"] | c["mask"], len(c["child"]) % 2 == 0) if isinstance(r["mask"], int) else 0
         return {**r, "sd": sd}
 
     yield Batch(
@@ -192,7 +213,7 @@ def batches(ctx):
         ty_in="list N * list N * N", ty_out="res N * res (list N) * res Z * res Z",
         cases=gcases, impl=impl_g,
         enc_in=lambda c: cpair(clist(map(cN, c["child"])), clist(map(cN, c["parent"])), cN(c["mask"])),
-        enc_out=lambda c, r: "(" + ", ".join(["Ok " + cN(r["mask"]),
+        enc_out=lambda c, r: "(" + ", ".join(["Ok " + mask_lit(r),
                                               "Err IndexError" if r["from_mask"] is None else "Ok " + clist(map(cN, r["from_mask"])),
                                               "Ok " + cZ(r["complete"]), "Ok " + cZ(r["sd"])]) + ")",
         oracle=oracle_m,
